@@ -67,11 +67,17 @@ var c03CacheMutators = map[string]bool{
 }
 
 func rulesC03Atomic(c *Ctx) {
-	const rule = "C03.atomic"
+	atomicRules(c, "C03.atomic", []string{"storage/mkvs.(*tree).doInsert", "storage/mkvs.(*tree).doRemove", "storage/mkvs.(*tree).Insert", "storage/mkvs.(*tree).RemoveExisting", "storage/mkvs.(*cache).tryRemoveNode"})
+}
+
+// atomicRules: failure atomicity of the named tree/cache mutators (shared: C03 — reads after a failed operation; C02 —
+// a failed operation must not change the contents below a node whose hash is kept; C04 — a remote reader's cache
+// eviction must not cut children off a node that stays cached).
+func atomicRules(c *Ctx, rule string, names []string) {
 	nFns := 0
 	// tryRemoveNode (eviction): a node that cannot be removed because the pointer being dereferenced is below it must stay
 	// whole (F20): the same rule, the failure being errRemoveLocked
-	for _, name := range []string{"storage/mkvs.(*tree).doInsert", "storage/mkvs.(*tree).doRemove", "storage/mkvs.(*tree).Insert", "storage/mkvs.(*tree).RemoveExisting", "storage/mkvs.(*cache).tryRemoveNode"} {
+	for _, name := range names {
 		fn := c.needFn(rule, name)
 		if fn == nil {
 			continue
@@ -225,7 +231,7 @@ func rulesC03Atomic(c *Ctx) {
 		}
 		c.Check(hit == nil, rule, name+":no error is produced after a modification", site, "no exit that creates an error is reachable after a modification ("+itoa(len(mods)+len(modCalls))+" modification events, "+itoa(nOb)+" fallible calls after them)", "an error is produced after the cached tree was already modified: the operation fails without being rolled back")
 	}
-	c.Floor(rule, nFns, 5, "tree and cache mutators analysed")
+	c.Floor(rule, nFns, len(names), "tree and cache mutators analysed")
 }
 
 func calleeShort(c ssa.CallInstruction) string {
